@@ -6,6 +6,7 @@ CONSTANTS
   Rets <- RetsOne
   Advs <- AdvsC13
   Decs <- DecsAll
+  BFaults <- BFaultsAll
   Ras <- RasNone
   Modes = {"call", "exec"}
   NRuns = 1
